@@ -218,6 +218,12 @@ async fn one_case(rig: &Rig, i: usize, k: usize, c: &Value) -> (Vec<(String, Val
 			}
 		};
 		let log: Vec<Value> = rig.take_log().into_iter().filter(|e| e["params"] != json!(["probe"])).collect();
+		// whatever was sent must be JSON-RPC 2.0 at all (C15's emission clause; C15 runs these exchanges for this key only)
+		for f in &frames {
+			if let Some(p) = crate::wire::emitted_problem(f) {
+				problems.push((format!("emitted:{tr}:{p}"), json!({"frame": f, "batch": text})));
+			}
+		}
 		let kx = exp["k"].as_str().unwrap();
 		// which handler invocations are expected
 		let mut want_log: Vec<&str> = if exp["executed"] == json!(true) {
